@@ -126,6 +126,8 @@ def c12(tier: str) -> int:
                    cfg(), cfg(lang='de'), cfg('l:1', expand='zz:9'), cfg('l:1 e:1'), cfg('e:1')]
         if 'f:2' in specs:
             configs += [cfg('l:1', expand='e:1 f:2'), cfg('l:1', expand='f:2'), cfg(lang='fr', expand='l:1')]
+        if 'm:1' in specs:
+            configs += [cfg('l:1 m:1'), cfg('m:1'), cfg('m:1 l:1', expand='e:*'), cfg('l:1', expand='e')]
         perturb = [['remove', 'e:1', 'all']] if rng.random() < 0.4 else []
         cases.append({'id': k + 1, 'tables': w.tables(), 'configs': configs, 'want': ['rel', 'exp'],
                       'argsets': {'synset': [[], ['hypernym'], ['hypernym', 'hyponym']], 'sense': [[]]},
